@@ -33,6 +33,7 @@ EXTENDS TfmCanon, Json
 
 CONSTANTS Mode, NC, MaxBody, MaxPrefix, SkipBytes, Variants,
           DimVals, MaxW, MaxH,   \* "dims": the values of the tables, the largest number of widths / heights
+          MaxE,                  \* "tags": the largest number of extensible recipes
           DomT,    \* largest remainder an input char_info carries (= Threshold, except in padded replays)
           PadK,    \* REPLAY only: padding steps put in front of the body (255 - DomT); else 0
           Waive    \* scope clauses waived (domains of the negative controls): "stops", "orphans", "longheader"
@@ -111,7 +112,7 @@ TagShapes == [C -> {0, 1, 2}]
 PickTags ==
   LET ex == shape IN
   \E tg \in [C -> {0, 2, 3}], rm \in [C -> 0 .. NC] :
-  \E ne \in 0 .. 2 : \E rec \in [1 .. ne -> Recipes] :
+  \E ne \in 0 .. MaxE : \E rec \in [1 .. ne -> Recipes] :
     LET x == TagFont(ex, tg, rm, rec) IN
     /\ \A c \in C : tg[c] = 0 => rm[c] = 0
     /\ Admit(x) /\ f' = x
